@@ -219,7 +219,7 @@ func c08ValuePool(rng *rand.Rand, thorough bool) []c08Val {
 		bits := 1 + rng.Intn(260)
 		x := new(big.Int).Rand(rng, new(big.Int).Lsh(one, uint(bits)))
 		x.SetBit(x, bits-1, 1)
-		ed := i < 5 || thorough
+		ed := i < 5 || (thorough && i < 40)
 		addInt(x, "int-random", ed)
 		addInt(new(big.Int).Add(x, one), "int-relative", ed)
 		addInt(new(big.Int).Neg(x), "int-relative", ed)
@@ -265,10 +265,10 @@ func c08ValuePool(rng *rand.Rand, thorough bool) []c08Val {
 		if math.IsNaN(f) || math.IsInf(f, 0) {
 			continue
 		}
-		fl(f, "float-random", i < 4 || thorough)
-		fl(math.Float64frombits(bits^1), "float-relative", i < 4 || thorough)     // one ulp
-		fl(math.Float64frombits(bits^(1<<63)), "float-relative", i < 4 || thorough) // the sign
-		fl(math.Float64frombits(bits^(1<<32)), "float-relative", i < 4 || thorough) // a bit of the upper half
+		fl(f, "float-random", i < 4 || (thorough && i < 25))
+		fl(math.Float64frombits(bits^1), "float-relative", i < 4 || (thorough && i < 25))     // one ulp
+		fl(math.Float64frombits(bits^(1<<63)), "float-relative", i < 4 || (thorough && i < 25)) // the sign
+		fl(math.Float64frombits(bits^(1<<32)), "float-relative", i < 4 || (thorough && i < 25)) // a bit of the upper half
 	}
 	// strings and bytes
 	strs := [][]byte{{}, []byte(" "), []byte("0"), []byte("1"), []byte("I0\n"), []byte("a"), []byte("A"), []byte("ab"), []byte("abc"), []byte("ab\x00"),
@@ -307,7 +307,7 @@ func c08ValuePool(rng *rand.Rand, thorough bool) []c08Val {
 		n := 1 + rng.Intn(40)
 		raw := make([]byte, n)
 		rng.Read(raw)
-		ed := i < 3 || thorough
+		ed := i < 3 || (thorough && i < 20)
 		rel := [][]byte{raw, append(append([]byte{}, raw...), 0), raw[:n-1]}
 		flip := append([]byte{}, raw...)
 		flip[rng.Intn(n)] ^= 1 << uint(rng.Intn(8))
